@@ -755,7 +755,8 @@ KA_RULE = ("model-guided random walks of the client library WITH the keep-alive 
            "testing/synctest and compared output-by-output with the extracted keep-alive wrapper model (ka_step); two corpus witnesses "
            "run first; the monitor kmon runs on the implementation's outputs and on the model's own")
 PROPS["C33"] = {
-    "theorems": ["C33_loop_pings_only_when_active", "C33_refuted_retransmission_while_asleep", "C33_refuted_ping_call_fails"],
+    "theorems": ["C33_loop_pings_only_when_active", "C33_pingreq_at_least_every_period", "C33_refuted_retransmission_while_asleep",
+                 "C33_refuted_ping_call_fails"],
     "drivers": ["drv_client.test"],
     "units": [Unit("drv_client_ka", unit_client_ka)],
     "mismatch_kinds": [r"."],
